@@ -71,7 +71,7 @@ def pogoExpected : Nat → List (Nat × Nat × Nat) → List PgoItem
 /-- the debug directory as the format describes it: the entries' raw-data windows -/
 def debugWindows (v : View) : Out (List (Option (Nat × Nat))) :=
   match v.dataDir 6 with
-  | none => .err .bounds
+  | none => .err .null
   | some (va, size) =>
     match recordCount size 28 with
     | .ok n =>
